@@ -176,7 +176,7 @@ def run(ctx):
 
     # 3. generated programs, every configuration
     cfgs = qa.all_configs()
-    n_rand = 1500 if quick else 9500
+    n_rand = 1500 if quick else 8000
     for i in range(n_rand):
         cfg = cfgs[i % len(cfgs)].with_layout((i // len(cfgs)) % 2 == 1)
         ops, s = qa.gen_program(repo, cfg, rng, 12 if i % 3 == 0 else 36, want_refusal=(i % 6 == 0))
